@@ -731,6 +731,7 @@ package whispertool
 //@   invariant out_last: archiveID + 1 == len(w.header.archiveInfoList) ==> len(propagatedTs) == 0
 //@   invariant out_aligned: archiveID + 1 < len(w.header.archiveInfoList) ==> forall j :: 0 <= j && j < len(propagatedTs) ==> alignedTo(propagatedTs[j], stepOf(w, archiveID + 1))
 //@   invariant out_fresh: (len(propagatedTs) == 0 && propagatedTs.arr == 0) || propagatedTs.arr > old(top)
+//@   stepcheck[C02] stored_if: len(values) > 0 && !fplt(tofp32(len(values)) / tofp32(len(points)), w.header.xFilesFactor) ==> calledInIter("(*Whisper).putPointAt")
 
 //@ spec dcount(r row:Point, off int, n int, s int) rec int = ite(n <= 0, 0, dcount(r, off, n - 1, s) + ite(n == 1 || floorTo(r[off + n - 1].Time, s) != floorTo(r[off + n - 2].Time, s), 1, 0))
 
